@@ -300,6 +300,16 @@ impl InMemoryZoneDiffBuilder {
         self.removed.insert((owner, rtype), rrset);
     }
 
+    /// Forget that resource records of the given RRset were added.
+    pub fn clear_added(&mut self, owner: &StoredName, rtype: Rtype) {
+        self.added.remove(&(owner.clone(), rtype));
+    }
+
+    /// Forget that resource records of the given RRset were removed.
+    pub fn clear_removed(&mut self, owner: &StoredName, rtype: Rtype) {
+        self.removed.remove(&(owner.clone(), rtype));
+    }
+
     /// Exchange this builder instnace for an immutable [`ZoneDiff`].
     ///
     /// The start serial should be the zone version to which the diffs should
